@@ -7,7 +7,7 @@ TRUSTED_BASE = [
     "Coq 8.16.1 kernel (coqc, full .vo build via coq_makefile/make; vm_compute used for finite sweeps and table checks; no native_compute)",
     "axioms: none (Print Assumptions of every property theorem must say 'Closed under the global context'; source audit refuses Axiom/Parameter/Admitted/Variable/...)",
     "translator tools/*.py (regex extraction of tables from /repo, fail-closed shape assertions)",
-    "extraction: ExtrOcamlBasic only (bool/option/list/prod/unit/sumbool mapped to OCaml's; N/positive/Z/nat stay extracted inductives; no Extract Constant), OCaml 4.13.1, ocaml/driver.ml",
+    "extraction: ExtrOcamlBasic (bool/option/list/prod/unit/sumbool mapped to OCaml's; N/positive/Z/nat stay extracted inductives) plus ONE directive, Extract Constant List.rev => \"List.rev\" (stdlib rev is quadratic; equality with rev_append l [] is List.rev_alt); OCaml 4.13.1, ocaml/driver.ml",
     "correspondence harness harness/src/*.rs + tools/gen/*.py (differential testing: bounded by generator quality)",
     "modelled, not verified: rustc/std (str methods, integer/float parsing and printing, mpsc, Mutex, thread), the OS (path resolution, read/write, sockets, scheduler), crates file-ext / url-build-parse / url-search-params as modelled from their source",
 ]
